@@ -11,6 +11,7 @@ import (
 	"os"
 	"path"
 	"strconv"
+	"strings"
 	"time"
 
 	"github.com/ava-labs/avalanchego/ids"
@@ -66,10 +67,49 @@ func GetPort(uri string) (string, error) {
 }
 
 func FormatBalance(bal uint64) string {
-	return strconv.FormatFloat(float64(bal)/math.Pow10(int(consts.Decimals)), 'f', int(consts.Decimals), 64)
+	unit := uint64(math.Pow10(int(consts.Decimals)))
+	return fmt.Sprintf("%d.%0*d", bal/unit, int(consts.Decimals), bal%unit)
+}
+
+// parseDecimalBalance parses a plain decimal amount ("12", "12.5", ".5") with at
+// most [consts.Decimals] fractional digits using integer arithmetic only.
+//
+// The returned bool is false if [bal] is not in that format.
+func parseDecimalBalance(bal string) (uint64, bool, error) {
+	intPart, fracPart, _ := strings.Cut(bal, ".")
+	if len(intPart)+len(fracPart) == 0 || len(fracPart) > int(consts.Decimals) {
+		return 0, false, nil
+	}
+	for _, c := range intPart + fracPart {
+		if c < '0' || c > '9' {
+			return 0, false, nil
+		}
+	}
+	var (
+		unit = uint64(math.Pow10(int(consts.Decimals)))
+		i, f uint64
+		err  error
+	)
+	if len(intPart) > 0 {
+		if i, err = strconv.ParseUint(intPart, 10, 64); err != nil {
+			return 0, true, err
+		}
+	}
+	if len(fracPart) > 0 {
+		if f, err = strconv.ParseUint(fracPart+strings.Repeat("0", int(consts.Decimals)-len(fracPart)), 10, 64); err != nil {
+			return 0, true, err
+		}
+	}
+	if i > (consts.MaxUint64-f)/unit {
+		return 0, true, strconv.ErrRange
+	}
+	return i*unit + f, true, nil
 }
 
 func ParseBalance(bal string) (uint64, error) {
+	if v, ok, err := parseDecimalBalance(bal); ok {
+		return v, err
+	}
 	f, err := strconv.ParseFloat(bal, 64)
 	if err != nil {
 		return 0, err
